@@ -74,6 +74,11 @@ def edit_case(rng, c, kind):
             t = rng.choice(absent)
         else:
             t = rng.choice(["middle", "centre", "Left", "up", ""])          # the empty word is no position either
+            if rng.random() < 0.4:
+                # one of the five words with a blank in it, before it or behind it: not one of the five words
+                w = rng.choice(POS)
+                k_ = rng.randrange(len(w) + 1)
+                t = w[:k_] + " " + w[k_:]
         pairs = []
         for x in a["axis"]:
             if x == name:
@@ -254,6 +259,7 @@ def run(ctx):
         classes[cl[0]] = classes.get(cl[0], 0) + 1
     classes["ufunc-input-on-wrong-position"] = sum(1 for r in urecs if r["edit"] == "wrong-position")
     classes["ufunc-wrong-number-of-inputs"] = sum(1 for r in urecs if r["edit"] == "arity")
+    classes["ufunc-input-with-two-dimensions-of-an-axis"] = sum(1 for r in urecs if r["edit"] == "two-dims")
     for r in recs:
         ctx.nontrivial.add((r.get("edit") or str(r.get("t")), r.get("op"), len(r.get("args", {}).get("axis", []))))
         if r["id"] in bad:
